@@ -162,11 +162,17 @@ static int encode_special_opd(struct instr *instrc, int m, int i) {
         instrc->hex.rex |= rex_w;
       reg_r++;
     }
-    if ((MODE_MASK & instrc->opd[m].reg) == ext64 ||
-        (MODE_MASK & instrc->opd[m].reg) == ext16)
+    // REX.B / REX.X for an extended register of any width, also as the base
+    // or index of a memory operand
+    if (instrc->opd[m].reg != reg_none && (instrc->opd[m].reg & REG_RB))
       instrc->hex.rex |= rex_ + rex_b;
+    if (instrc->opd[m].index != reg_none && (instrc->opd[m].index & REG_RB))
+      instrc->hex.rex |= rex_ + rex_x;
     FAIL_IF(get_reg(instrc, &instrc->opd[m], reg_r));
     instrc->rd_offset = (instrc->opd[m].reg & VALUE_MASK);
+    // with an index register the r/m field announces the SIB byte
+    if (instrc->is_sib)
+      instrc->rd_offset = spl;
     if (instrc->mem_disp)
       instrc->rd_offset |= instrc->mod_disp;
     break;
